@@ -30,7 +30,7 @@ RULES = [
     (r"^declared/(implicit string array|ELSE arm after ELSE IF)", "KF-C10-implicit-string-array-unsized"),
     (r"^user-text/comment with an odd quote", "KF-C13-odd-quote-in-comment-defeats-placeholder-substitution"),
     (r"^user-text/comment that mentions a call", "KF-C13-RUN-in-comment-counts-as-a-call"),
-    (r"^string/counts -2\.\.255, declared capacity 32$", "KF-C20-STRING$-result-cut-to-declared-capacity"),
+    (r"^(helpers/)?string/counts -2\.\.255, declared capacity 32$", "KF-C20-STRING$-result-cut-to-declared-capacity"),
     (r"^kinds/ecb_joystk/", "KF-C04-JOYSTK-call-passes-2-of-6-arguments"),
     (r"^kinds/ecb_hprint/numeric item", "KF-C14-HPRINT-numeric-item-gets-numeric-temporary"),
 ]
